@@ -25,26 +25,39 @@ def monthGo : List Nat → Nat → Nat → Nat × Nat
   | [], mon, rem => (mon, rem)
   | l :: ls, mon, rem => if rem < l then (mon + 1, rem) else monthGo ls (mon + 1) (rem - l)
 
+/-- `days` (since 2000-03-01, may be negative) split into 400-year cycles: (cycle number, day inside the cycle).
+    Rust `/` and `%` on i64 truncate toward zero (`tdiv` / `tmod`), then the sign is fixed. -/
+def cycleSplit (n : Nat) : Int × Nat :=
+  let days : Int := (n : Int) - 11017
+  if days.tmod 146097 < 0 then (days.tdiv 146097 - 1, (days.tmod 146097 + 146097).toNat)
+  else (days.tdiv 146097, (days.tmod 146097).toNat)
+
+/-- inside one 400-year cycle: 100-year, 4-year and 1-year steps; gives (years since the start of the cycle, day of
+    the March-based year) -/
+def inCycle (rem : Nat) : Nat × Nat :=
+  let c := if rem / 36524 = 4 then 3 else rem / 36524
+  let r1 := rem - c * 36524
+  let q := if r1 / 1461 = 25 then 24 else r1 / 1461
+  let r2 := r1 - q * 1461
+  let y := if r2 / 365 = 4 then 3 else r2 / 365
+  (y + 4 * q + 100 * c, r2 - y * 365)
+
+/-- month and day from the day of the March-based year; January and February belong to the next calendar year -/
+def fromMarch (yr r3 : Nat) : Nat × Nat × Nat :=
+  let md := monthGo monthLens 0 r3
+  if md.1 + 2 > 12 then (yr + 1, md.1 - 10, md.2 + 1) else (yr, md.1 + 2, md.2 + 1)
+
 /-- seconds since 1970 (below year 9999) to civil fields -/
 def civil (secs : Nat) : Civil :=
-  let days : Int := (secs / 86400 : Nat) - 11017
+  let n := secs / 86400
   let sod := secs % 86400
-  -- Rust `/` and `%` on i64 truncate toward zero (`tdiv` / `tmod`), then the sign is fixed
-  let (qc, rem) := if days.tmod 146097 < 0 then (days.tdiv 146097 - 1, days.tmod 146097 + 146097)
-    else (days.tdiv 146097, days.tmod 146097)
-  let remN := rem.toNat
-  let c := if remN / 36524 = 4 then 3 else remN / 36524
-  let remN := remN - c * 36524
-  let q := if remN / 1461 = 25 then 24 else remN / 1461
-  let remN := remN - q * 1461
-  let y := if remN / 365 = 4 then 3 else remN / 365
-  let remN := remN - y * 365
-  let year : Int := 2000 + y + 4 * q + 100 * c + 400 * qc
-  let (mon, mday0) := monthGo monthLens 0 remN
-  let (year, mon) := if mon + 2 > 12 then (year + 1, mon - 10) else (year, mon + 2)
-  let wd := (3 + days).tmod 7
+  let qr := cycleSplit n
+  let yd := inCycle qr.2
+  let year : Int := 2000 + yd.1 + 400 * qr.1
+  let d := fromMarch year.toNat yd.2
+  let wd := (3 + ((n : Int) - 11017)).tmod 7
   let wd := if wd ≤ 0 then wd + 7 else wd
-  ⟨sod % 60, (sod % 3600) / 60, sod / 3600, mday0 + 1, mon, year.toNat, wd.toNat⟩
+  ⟨sod % 60, (sod % 3600) / 60, sod / 3600, d.2.2, d.2.1, d.1, wd.toNat⟩
 
 def isLeap (y : Nat) : Bool := y % 4 == 0 && (y % 100 != 0 || y % 400 == 0)
 
